@@ -70,8 +70,21 @@ def case_fasta(run, i):
         text.append(">" + n + (" some description N" if rng.random() < 0.3 else "") + "\n")
         for k in range(0, len(seq), width):
             text.append(seq[k:k + width] + "\n")
+    blank = rng.random() < 0.12
+    if blank:
+        # blank lines, as left by editors and concatenation: at the end of the file, between records, inside a sequence
+        where = int(rng.integers(0, 3))
+        if where == 0:
+            text.append("\n")
+        else:
+            k = int(rng.integers(1, len(text) + 1))
+            if where == 1:
+                heads = [j for j, t in enumerate(text) if t.startswith(">") and j > 0]
+                k = int(rng.choice(heads)) if heads else len(text)
+            text.insert(k, "\n")
+        run.extra["fasta-texts-with-a-blank-line"] += 1
     text = "".join(text)
-    if rng.random() < 0.3 and text.endswith("\n") and not text.rstrip("\n").endswith(">" + names[-1]):
+    if not blank and rng.random() < 0.3 and text.endswith("\n") and not text.rstrip("\n").endswith(">" + names[-1]):
         text = text[:-1]                     # final line without newline
     fa = os.path.join(d, "g.fa")
     with open(fa, "w") as fh:
